@@ -322,6 +322,12 @@ func genC05(g *G) {
 	for _, in := range longIDNNames() {
 		emitRev(g, []string{"rpfx", "rext"}, in)
 	}
+	// the full-address names of C04's stream (every spelling, perturbed labels, look-alikes such as
+	// ::ffff:4.3.2.1.in-addr.arpa, 70..74-byte ip6.arpa names with a perturbed position) are prefix
+	// names too (/32, /128): PrefixFromReversedAddr and ExtractReversedAddr see them as well
+	g.fnFilter = map[string]bool{"rpfx": true, "rext": true}
+	genC04(g)
+	g.fnFilter = nil
 	v4Shapes := []string{"0", "1", "9", "10", "99", "100", "255", "256", "00", "01", "001", "a", "1a", "", "-1", "+1", "１", "000", "0255"}
 	v6Shapes := []string{"0", "a", "F", "g", "ab", "0x", "", "9", "f"}
 	roots4 := []string{"in-addr.arpa", "IN-ADDR.ARPA", "İn-addr.arpa", "in-addr.arpa.", "in-addr.arpa.."}
